@@ -171,5 +171,5 @@ def run(ctx):
 
     val = {"fill": 1, "layout": 2, "cfg": [3, 5, 1, 2, 4], "pick": 7}
     quick = ctx.tier == "quick"
-    run_systematic(ctx, distinct_step_cases(ctx.shard, ctx.nshards, names, val, params=(0, 1) if quick else (0, 1, 2, 5, 7)), guarded(ctx, check_case), keep_one_in=3 if quick else 1, label="template-single-steps", presharded=True)
+    run_systematic(ctx, distinct_step_cases(ctx.shard, ctx.nshards, names, val, params=(0, 1, 2, 3) if quick else (0, 1, 2, 3, 5, 7)), guarded(ctx, check_case), keep_one_in=6 if quick else 1, label="template-single-steps", presharded=True)
     run_cases(ctx, strat, guarded(ctx, check_case), ctx.budget(1600, 12800))
